@@ -1,4 +1,4 @@
-import JjModel.Lemmas.RepoMerge
+import JjModel.Lemmas.RepoWcAll
 /-!
   C11 — Rewrites leave no orphans and references follow.
 
@@ -8,7 +8,8 @@ import JjModel.Lemmas.RepoMerge
 
   Status (see `notes/C11.md`): `rewritten_ids_eq_resolved`, `rewritten_ids_spec`,
   `order_is_topological`, `rebased_keeps_identity`, `bookmarks_follow`, `no_key_is_head` are proved
-  in full; `no_orphans_partial`, `wc_follows_partial`, `change_ids_partial` are weaker than the
+  in full; `wc_follows` (disjunctive) is proved for any number of workspaces;
+  `no_orphans_partial`, `wc_follows_partial`, `change_ids_partial` are weaker than the
   planned statements — the full `no_orphans` is *false* for the code as it stands (known finding
   `rewrite:orphan-rebased-before-its-parent`), the gaps are written next to each statement.
 -/
@@ -238,6 +239,21 @@ theorem wc_follows_partial (r r' : Repo) (rm : List (Nat × List Nat)) (ws c : N
       r'.store = r.store ++ [{ parents := news, change := r.store.length, desc := 0,
                                tree := mergeCommitTrees r.store news, preds := [] }]) :=
   updateWcCommits_single r r' rm ws c news hwc hrm h
+
+/-- **`wc_follows`** (any number of workspaces, distinct names): after `update_wc_commits` every
+    workspace whose commit is a key of the resolved mapping points at the first replacement, or at a
+    commit written by this call with parents = the replacements, empty description, no
+    predecessors and a fresh change id.  (Which of the two: `wc_follows_partial` for one workspace;
+    with several workspaces `edit()` may turn a `Rewritten` record of a discardable commit into
+    `Abandoned` in between, so the second alternative can also occur for a rewritten commit — the
+    documented quirk in `notes/C11.md`.) -/
+theorem wc_follows (r r' : Repo) (rm : List (Nat × List Nat))
+    (hnd : (r.view.wc.map (·.1)).Nodup) (h : r.updateWcCommits rm = some r') :
+    (∃ tail, r'.store = r.store ++ tail) ∧
+    ∀ ws c news, (ws, c) ∈ r.view.wc → rm.lookup c = some news →
+      ∃ t, assocGet r'.view.wc ws = some t ∧
+        ((∃ rest, news = t :: rest) ∨ IsFreshWc r.store.length r'.store news t) :=
+  updateWcCommits_follows r r' rm hnd h
 
 /-! ### change ids -/
 
